@@ -309,6 +309,16 @@ pub fn run_check(replay: Option<Value>) -> i32 {
                 linear_homogeneous: false,
             };
             let _ = mi2;
+            // the same problem in explicit form at the same tolerance fixes the scale: the number of
+            // steps of the run under test must not enter its own error bound
+            let mut ce = Cfg::new(Method::RADAU, 0.0, 1.5, &y0).tol(rtol, atol);
+            ce.user_jac = true;
+            let re = run_with(&pe, &ce, None, None);
+            let nacc_e = re.sol().map(|s| s.naccpt).unwrap_or(1).max(1);
+            let scale_e = 50.0 * nacc_e as f64 * (atol + rtol * ynorm);
+            if bs.naccpt > 3 * nacc_e + 20 {
+                viol!("mass-cost", format!("M y'=f needs {} accepted steps, the equivalent explicit form {} at the same tolerance", bs.naccpt, nacc_e));
+            }
             for m in [Method::RADAU, Method::DOP853] {
                 let mut c = Cfg::new(m, 0.0, 1.5, &y0).tol(rtol * 1e-2, atol * 1e-2);
                 c.user_jac = true;
@@ -316,8 +326,8 @@ pub fn run_check(replay: Option<Value>) -> i32 {
                 out.events += r.st.n_ode;
                 if let Some(s) = r.sol() {
                     let d = s.y.last().unwrap().iter().zip(bs.y.last().unwrap()).fold(0.0f64, |a, (u, v)| a.max((u - v).abs()));
-                    if d > tolscale {
-                        viol!("mass-vs-explicit", format!("M y'=f and y'=M^-1 f (solved by {}) differ by {:e} at the end (tolerance scale {:e})", mname(m), d, tolscale));
+                    if d > scale_e {
+                        viol!("mass-vs-explicit", format!("M y'=f and y'=M^-1 f (solved by {}) differ by {:e} at the end (tolerance scale {:e})", mname(m), d, scale_e));
                     }
                     out.validated += 1;
                     out.tag("mass-vs-explicit");
